@@ -97,6 +97,8 @@ fn row_alphabet() -> Vec<Row> {
         row(Kind::Dividend, "Cash Dividend", &us(a), a, "X", "DIV", "", "", "", "$5.00"),
         row(Kind::Dividend, "Qualified Dividend", &us(a), a, "X", "QDIV", "", "", "", "$3.00"),
         row(Kind::Dividend, "Cash Dividend", &us(c), c, "X", "DIV", "", "", "", "-$5.00"),
+        // a dividend-type row without an amount (it yields no line and must not absorb anything)
+        row(Kind::Dividend, "Qualified Dividend", &us(a), a, "X", "QDIV pending", "", "", "", ""),
         row(Kind::Dividend, "Short Term Cap Gain", &us(b), b, "Y", "STCG", "", "", "", "$2"),
         row(Kind::Withholding, "NRA Withholding", &us(a), a, "X", "NRA", "", "", "", "-$0.75"),
         row(Kind::Withholding, "NRA Tax Adj", &us(a), a, "X", "NRA ADJ", "", "", "", "-$0.25"),
@@ -559,7 +561,7 @@ pub fn c19(tier: Tier) -> i32 {
         .par_iter()
         .fold(Acc::new, |mut acc, (dep, mask)| {
             for pat in pats {
-                for lower in [false, true] {
+                for (lower, newest_first) in [(false, false), (true, false), (false, true)] {
                     let sym_file = if lower { "xyZ" } else { "XYZ" };
                     let sym_row = if lower { "Xyz" } else { "XYZ" };
                     let mut entries: Vec<Value> = vec![json!({"Date": us(*dep), "Action": "Wire Transfer", "Symbol": sym_file, "TransactionDetails": []}), json!({"Date": us(*dep), "Action": "Deposit", "Symbol": "OTHER", "TransactionDetails": [{"Details": {"VestDate": us(*dep), "VestFairMarketValue": "$1.11"}}]})];
@@ -587,6 +589,10 @@ pub fn c19(tier: Tier) -> i32 {
                             Pat::VestValueAndFallbackInOneRecord => entries.push(json!({"Date": us(d), "Action": "Lapse", "Symbol": sym_file, "TransactionDetails": [{"Details": {"VestFairMarketValue": format!("${}", vest_val(*o)), "FairMarketValuePrice": format!("${}", fb_val(*o))}}]})),
                         }
                     }
+                    // the awards file lists its entries oldest first or newest first (the order must not matter)
+                    if newest_first {
+                        entries[2..].reverse();
+                    }
                     let exp_off: Option<i64> = if present.contains(&0) { Some(0) } else { present.iter().copied().filter(|o| (-7..=-1).contains(o)).max() };
                     let is_vest = |o: i64| match pat {
                         Pat::AllVest | Pat::BothVestFirst | Pat::BothFallbackFirst | Pat::VestValueOnly | Pat::VestValueAndFallbackInOneRecord => true,
@@ -600,7 +606,7 @@ pub fn c19(tier: Tier) -> i32 {
                     acc.validated += 1;
                     let res = catch_unwind(AssertUnwindSafe(|| SchwabConverter::new().convert(&input)));
                     let inp = || Input::Json(json!({"transactions": serde_json::from_str::<Value>(&tx).unwrap_or(Value::Null), "awards": serde_json::from_str::<Value>(&awards).unwrap_or(Value::Null)}));
-                    let cx = json!({"profile": format!("{pat:?}"), "deposit": dep.to_string(), "offsets_present": present, "variant": format!("{pat:?}")});
+                    let cx = json!({"profile": format!("{pat:?}"), "deposit": dep.to_string(), "offsets_present": present, "entries_listed": if newest_first { "newest first" } else { "oldest first" }, "variant": format!("{pat:?}")});
                     let push = |acc: &mut Acc, clause: &str, detail: String| {
                         acc.violation(&ctxr.findings, "C19", Violation { clause: clause.into(), input: inp(), detail, context: cx.clone() });
                     };
